@@ -79,7 +79,23 @@ def check(t, fname, f, A, case, extra_args=()):
     return done
 
 
-def work_unit(prop, funcs, unit):
+def check_selfloops(t, fname, f, A, case):
+    """path-based quantities between distinct nodes do not see self-connections: f(A) == f(A + diagonal)."""
+    st0, base = guarded(f, np.array(A, dtype=float))
+    if st0 != 'ok':
+        return
+    Ad = np.array(A, dtype=float)
+    np.fill_diagonal(Ad, [1.0, 0.0, 2.0, 1.0, 3.0, 0.5][:len(Ad)])
+    st, out = guarded(f, Ad.copy())
+    t.c['self_connection_evaluations'] += 1
+    c = dict(case, variant='self_connections', A=Ad)
+    if st != 'ok':
+        t.viol(fname, 'self_connections:raises', c, observed=out)
+    elif not same(out, base, 1e-9):
+        t.viol(fname, 'self_connections:change_nothing', c, observed=out, expected=base)
+
+
+def work_unit(prop, funcs, unit, selfloop_invariant=()):
     """unit = ('etype', directed, n, alphabet, a, b); funcs = [(name, callable(A), predicate(A) or None)]."""
     from bctmc import smallscope as ss
     from bctmc.tally import Tally
@@ -87,6 +103,10 @@ def work_unit(prop, funcs, unit):
     t = Tally(prop)
     for idx in range(a, b):
         A = ss.dir_graph(n, alpha, idx) if directed else ss.und_graph(n, alpha, idx)
+        for name, f, pred in funcs:
+            if name in selfloop_invariant and (pred is None or pred(A, directed)):
+                check_selfloops(t, name.split('[')[0], f, A, {'family': 'element_types', 'directed': directed, 'n': n,
+                                                              'alphabet': list(alpha), 'index': idx, 'call': name})
         for name, f, pred in funcs:
             if pred is not None and not pred(A, directed):
                 continue
@@ -114,7 +134,12 @@ def replay(prop, funcs, case):
     A = np.array(case['A'], dtype=float)
     for name, f, pred in funcs:
         if name == case['call']:
-            check(t, name.split('[')[0], f, A, {k: v for k, v in case.items() if k != 'element_type'})
+            if case.get('variant') == 'self_connections':
+                B = A.copy()
+                np.fill_diagonal(B, 0)
+                check_selfloops(t, name.split('[')[0], f, B, {k: v for k, v in case.items() if k not in ('variant', 'A')})
+            else:
+                check(t, name.split('[')[0], f, A, {k: v for k, v in case.items() if k != 'element_type'})
     return t
 
 
